@@ -180,12 +180,12 @@ Definition claim (s : state) (u v : Z) : res state :=
    Staking contract used: MsgDelegate is refused for a non-positive amount or an unknown
    validator; otherwise the module's delegation balance grows by exactly amt. *)
 Definition delegate (s : state) (o : oracle) (u v amt dn : Z) : res state :=
+  if amt <? 0 then Err E_INVALID_COINS else        (* msg.Amount.Validate() *)
   if negb (dn =? FEE) then Err E_INVALID_COINS else
   let c := cells s v in
   let! c1 := do_claim c u in
   let ub1 := credit s c u in
   let! share := k_calc_share c1 amt in
-  if amt <? 0 then Panic else                      (* sdk.NewCoin(bondDenom, amount) *)
   if ub1 u FEE <? amt then Err E_INSUFFICIENT else (* SendCoinsFromAccountToModule *)
   (* ConvertReverse at the module account: fee burnt, bond minted, then delegated *)
   if (v <? 0) || (amt <=? 0) then Err E_STAKING else
